@@ -1,8 +1,8 @@
 /-
   VotelibModel.QuotaDist — `QuotaDistributor` and `LargestRemainder`
-  (votelib/evaluate/proportional.py L162-370), modelled as the code is NOW (after the repairs 9571110 —
+  (votelib/evaluate/proportional.py L162-378), modelled as the code is NOW (after the repairs 9571110 —
   a capped party is held at its cap, no implicit `n_seats` cap, no overshoot recursion, `LargestRemainder`
-  passes `max_seats` on — and 24bad1e).  The pre-repair model is kept in `QuotaDistPreFix.lean`.
+  passes `max_seats` on —, 24bad1e and eca6e34: a non-positive quota is refused).  The pre-repair model is kept in `QuotaDistPreFix.lean`.
 
   Conventions
   * a vote dict is `Votes` (insertion order), `prev_gains` / `max_seats` are `IMap`s (candidate -> int),
@@ -71,7 +71,7 @@ def sumK (s : Sel) : Int := s.foldl (fun acc p => acc + p.2) 0
 /-- `util.add_dict_to_dict(d1, d2)` (util.py L19-23) -/
 def addDict (d1 d2 : Sel) : Sel := d2.foldl (fun acc p => setK acc p.1 (getK acc p.1 0 + p.2)) d1
 
-/-- `if d[k] == 1: del d[k] else: d[k] -= 1`  (proportional.py L280-283, L286-289, L293-296) -/
+/-- `if d[k] == 1: del d[k] else: d[k] -= 1`  (proportional.py L284-283, L290-289, L297-296) -/
 def decK (s : Sel) (k : Key) : Sel :=
   if getK s k 0 = 1 then delK s k else setK s k (getK s k 0 - 1)
 
@@ -90,18 +90,18 @@ def slotKey : Slot → Key
   | .cand c => .cand c
   | .tie cs => mkTie cs
 
-/-! ### whole quotas: the loop L225-237 -/
+/-! ### whole quotas: the loop L229-237 -/
 
-/-- `n_votes > quota_val or self.accept_equal and n_votes == quota_val` (L227-230) -/
+/-- `n_votes > quota_val or self.accept_equal and n_votes == quota_val` (L231-230) -/
 def fulfills (q : Rat) (ae : Bool) (v : Rat) : Bool := decide (q < v) || (ae && decide (v = q))
 
-/-- `min(w, max_seats.get(candidate, INF))` (L232-235) -/
+/-- `min(w, max_seats.get(candidate, INF))` (L236-235) -/
 def capMin (maxS : IMap) (c : Cand) (w : Int) : Int :=
   match getCap maxS c with
   | some m => if m < w then m else w
   | none => w
 
-/-- body of the loop L225-237 for one `(candidate, n_votes)` -/
+/-- body of the loop L229-237 for one `(candidate, n_votes)` -/
 def wholeStep (q : Rat) (ae : Bool) (prev maxS : IMap) (sel : Sel) (p : Cand × Rat) : Except Err Sel :=
   let c := p.1
   let v := p.2
@@ -120,7 +120,7 @@ def wholeLoop (q : Rat) (ae : Bool) (prev maxS : IMap) : Sel → Votes → Excep
     | .ok sel' => wholeLoop q ae prev maxS sel' ps
     | .error e => .error e
 
-/-! ### `_subtract_overaward` (L259-298) -/
+/-! ### `_subtract_overaward` (L263-298) -/
 
 /-- `votes.get(key, 0)` for a key of `selected` (a `Tie` key is never a key of `votes`) -/
 def votesOfKey (votes : Votes) : Key → Rat
@@ -131,7 +131,7 @@ def prevOfKey (prev : IMap) : Key → Int
   | .cand c => getI prev c 0
   | .tie _ => 0
 
-/-- the dict `remainders` of L270-276, keyed by the *position* of the entry in `selected` -/
+/-- the dict `remainders` of L274-276, keyed by the *position* of the entry in `selected` -/
 def subRemainders (votes : Votes) (q : Rat) (prev : IMap) (sel : Sel) : Votes :=
   (List.range sel.length).zip sel |>.map
     (fun ip => (ip.1, -(votesOfKey votes ip.2.1 - q * (((ip.2.2 + prevOfKey prev ip.2.1 : Int)) : Rat))))
@@ -145,7 +145,7 @@ def candOfKey : Key → Option Cand
   | .cand c => some c
   | .tie _ => none
 
-/-- one pass of the `while` body L270-297 -/
+/-- one pass of the `while` body L274-297 -/
 def subtractStep (votes : Votes) (q : Rat) (prev : IMap) (sel : Sel) : Except Err Sel :=
   match getNBest (subRemainders votes q prev sel) 1 with
   | [] => .error indexErr                                   -- `get_n_best({}, 1)[0]`
@@ -156,10 +156,10 @@ def subtractStep (votes : Votes) (q : Rat) (prev : IMap) (sel : Sel) : Except Er
     | none => .error nestedTie
     | some cs =>
       let tk := mkTie cs
-      if hasK sel tk then .ok (decK sel tk)                  -- L279-283
+      if hasK sel tk then .ok (decK sel tk)                  -- L283-283
       else
-        let sel' := cs.foldl (fun acc c => decK acc (.cand c)) sel     -- L285-289
-        .ok (setK sel' tk (getK sel' tk 0 + (cs.length : Int) - 1))    -- L290-292
+        let sel' := cs.foldl (fun acc c => decK acc (.cand c)) sel     -- L289-289
+        .ok (setK sel' tk (getK sel' tk 0 + (cs.length : Int) - 1))    -- L294-292
 
 def subtractLoop (votes : Votes) (q : Rat) (prev : IMap) : Nat → Sel → Except Err Sel
   | 0, sel => .ok sel
@@ -173,9 +173,9 @@ def subtractOveraward (cfg : Cfg) (votes : Votes) (sel : Sel) (n : Nat) (prev : 
   let q := cfg.quota (sumVals votes) n
   subtractLoop votes q prev overaward.toNat sel
 
-/-! ### `QuotaDistributor.evaluate` (L205-257) -/
+/-! ### `QuotaDistributor.evaluate` (L205-261) -/
 
-/-- over-award policies L238-257 -/
+/-- over-award policies L242-257 -/
 def applyPolicy (cfg : Cfg) (votes : Votes) (n : Nat) (prev : IMap) (selected : Sel) : Except Err Sel :=
   let totalAwarded := sumK selected + sumI prev
   if totalAwarded > (n : Int) then
@@ -187,15 +187,17 @@ def applyPolicy (cfg : Cfg) (votes : Votes) (n : Nat) (prev : IMap) (selected : 
 
 def quotaDistribute (cfg : Cfg) (votes : Votes) (n : Nat) (prev maxS : IMap) : Except Err Sel :=
   let q := cfg.quota (sumVals votes) n
-  match wholeLoop q cfg.acceptEqual prev maxS [] votes with
-  | .error e => .error e
-  | .ok selected => applyPolicy cfg votes n prev selected
+  if q ≤ 0 then .error .votingSystemError            -- L224-227: non-positive quota refused (repair eca6e34)
+  else
+    match wholeLoop q cfg.acceptEqual prev maxS [] votes with
+    | .error e => .error e
+    | .ok selected => applyPolicy cfg votes n prev selected
 
-/-! ### `LargestRemainder.evaluate` (L336-374) -/
+/-! ### `LargestRemainder.evaluate` (L340-374) -/
 
 def prevAsSel (prev : IMap) : Sel := prev.map (fun p => (Key.cand p.1, p.2))
 
-/-- the dict `remainders` of L361-365 -/
+/-- the dict `remainders` of L365-365 -/
 def lrRemainders (votes : Votes) (q : Rat) (gained : Sel) (maxS : IMap) : Votes :=
   votes.filterMap (fun p =>
     let g := getK gained (.cand p.1) 0
@@ -204,11 +206,11 @@ def lrRemainders (votes : Votes) (q : Rat) (gained : Sel) (maxS : IMap) : Votes 
       | none => true
     if ok then some (p.1, p.2 / q - (g : Rat)) else none)
 
-/-- `quota_elected[candidate] += 1` or `= 1` (L369-373) -/
+/-- `quota_elected[candidate] += 1` or `= 1` (L373-373) -/
 def incK (s : Sel) (k : Key) : Sel := if hasK s k then setK s k (getK s k 0 + 1) else setK s k 1
 
 def largestRemainder (cfg : Cfg) (votes : Votes) (n : Nat) (prev maxS : IMap) : Except Err Sel :=
-  match quotaDistribute cfg votes n prev maxS with       -- L353-355
+  match quotaDistribute cfg votes n prev maxS with       -- L357-355
   | .error e => .error e
   | .ok quotaElected =>
     let q := cfg.quota (sumVals votes) n
